@@ -520,7 +520,7 @@ fn run_shard(rep: &Reporter, tier: Tier, shard: usize, nshards: usize) -> ShardO
     // ---- timeouts: a server that accepts and stays silent
     for sync_api in [false, true] {
         for (scheme, starttls) in [("ldap", true), ("ldaps", false), ("ldaps", true)] {
-            for ms in [300u64, 700] {
+            for ms in [0u64, 300, 700] {
                 cases.push(Case { url: format!("{}://127.0.0.1:{}/", scheme, silent_port), starttls, pre: Pre::None, timeout_ms: Some(ms), sync_api, want: Want::Timeout, api: 0 });
             }
         }
@@ -540,7 +540,7 @@ fn run_shard(rep: &Reporter, tier: Tier, shard: usize, nshards: usize) -> ShardO
     // StartTLS exchange / TLS handshake there as well
     for sync_api in [false, true] {
         for (scheme, starttls) in [("ldap", true), ("ldaps", false), ("ldaps", true)] {
-            for ms in [300u64, 700] {
+            for ms in [0u64, 300, 700] {
                 cases.push(Case { url: format!("{}://127.0.0.1:{}/", scheme, closed_port), starttls, pre: Pre::TcpSilent, timeout_ms: Some(ms), sync_api, want: Want::Timeout, api: 0 });
             }
         }
